@@ -153,7 +153,7 @@ pub fn observe(parse: fn(&str, u8, u64) -> Raw, input: &str, mode: u8, salt: u64
     CTX_CALLS.with(|c| c.borrow_mut().clear());
     FUEL.with(|f| f.set(0));
     INPUT_LEN.with(|l| l.set(input.len()));
-    let r = std::panic::catch_unwind(|| parse(input, mode, salt));
+    let r = verif_core::util::catch(|| parse(input, mode, salt));
     let hooks = verif_core::hooks::drain_log();
     let trace = TRACE.with(|t| std::mem::take(&mut *t.borrow_mut()));
     let ctx_calls = CTX_CALLS.with(|c| std::mem::take(&mut *c.borrow_mut()));
